@@ -26,7 +26,7 @@ TRUSTED_BASE = [
     "Mathlib v4.33.0 single modules in Proofs/ only (tactics: linarith, positivity, ring; no model file imports Mathlib)",
     "hand-written Lean model Coma/*.lean; fidelity checked on every run by the correspondence streams (only on the inputs generated)",
     "Python harness: generators, canonicalisation, diff, oracles, known-finding classifiers",
-    "modelled-not-verified: scipy FFT correlate/find_peaks (seed oracle), pathos p_imap (order-preserving map), pandas read_csv/to_csv tokenisation, difflib block matching (matched-size contract), IEEE float arithmetic on fractional coordinates",
+    "modelled-not-verified: the PRIMARY seeding stage (float normalised FFT correlation + find_peaks with height/distance; parameter of the model: the selected primary peaks), scipy.signal.correlate on integer arrays and find_peaks(height, prominence) of the SECONDARY stage (executable contract in Coma/Peaks.lean, run against the real scipy on every invocation), numpy argpartition order when more than ten secondary peaks pass (taken from the real run after a consistency check), pathos p_imap (order-preserving map), pandas read_csv/to_csv tokenisation, difflib block matching (matched-size contract), IEEE float arithmetic on fractional coordinates",
 ]
 
 
